@@ -115,10 +115,11 @@ def true_limit(W, dz):
 
 
 def qlen(x):
-    """lengths (m) as integer nanometres * 1000 (pm) capped to 2^30."""
-    v = x * 1e9
-    if v > ONE:
-        return ONE
+    """lengths (m) as integer nanometres, capped at 2^30 nm (1.07 m; the
+    reactor never steps further than 1 cm)."""
+    v = float(x) * 1e9
+    if not np.isfinite(v) or v > (1 << 30):
+        return 1 << 30
     return int(np.floor(v))
 
 
@@ -147,6 +148,53 @@ def probe_rodded_interior(dassh, rr, dz, T, adiabatic=False):
     return W, wall, src, m, swirl_on
 
 
+def rodded_limits(dassh, rr, T):
+    """Call region_rodded.calculate_min_dz(rr, T, T, adiabatic) and capture
+    what its interior / bypass helpers returned and which per-signature
+    constraint functions they evaluated."""
+    mod = dassh.region_rodded
+    called = []
+    got = {}
+    saved = {}
+    for name in dir(mod):
+        if re.fullmatch(r'_cons\d_\d+', name):
+            f = getattr(mod, name)
+            saved[name] = f
+
+            def mk(f, name):
+                def w(*a, **k):
+                    called.append(name)
+                    return f(*a, **k)
+                return w
+            setattr(mod, name, mk(f, name))
+    o_int, o_byp = mod._calculate_int_dz, mod._calculate_byp_dz
+
+    def w_int(*a, **k):
+        r = o_int(*a, **k)
+        got['int'] = r
+        return r
+
+    def w_byp(*a, **k):
+        r = o_byp(*a, **k)
+        got['byp'] = r
+        return r
+    mod._calculate_int_dz, mod._calculate_byp_dz = w_int, w_byp
+    try:
+        with saved_state(rr, ['coolant_int_params'] + (
+                ['coolant_byp_params'] if rr.n_bypass > 0 else [])):
+            mod.calculate_min_dz(rr, T, T,
+                                 bool(getattr(rr, '_probe_adiabatic', False)))
+    finally:
+        mod._calculate_int_dz, mod._calculate_byp_dz = o_int, o_byp
+        for name, f in saved.items():
+            setattr(mod, name, f)
+    out = {'int': (got['int'][0], got['int'][1],
+                   [c for c in called if re.fullmatch(r'_cons[123]_\d+', c)])}
+    if 'byp' in got:
+        out['byp'] = (got['byp'][0], got['byp'][1], [])
+    return out
+
+
 def bundle_trace(dassh, rr, dz, T, label, tol=4):
     proj = bs.Projection(rr)
     n = rr.subchannel.n_sc['coolant']['total']
@@ -162,31 +210,9 @@ def bundle_trace(dassh, rr, dz, T, label, tol=4):
         W = W + np.diag(wall)
         wall = np.zeros_like(wall)
     ev = rows_cols_events(W, wall, m, keys, tol=tol, swirl=swirl, full=True)
-    # the limit the code derives for this region at this temperature
-    with saved_state(rr, ['coolant_int_params']):
-        ct = rr.coolant.temperature
-        rr._update_coolant_int_params(T, use_mat_tracker=False)
-        called = []
-        mod = dassh.region_rodded
-        saved = {}
-        for name in dir(mod):
-            if re.fullmatch(r'_cons[123]_\d+', name):
-                f = getattr(mod, name)
-                saved[name] = f
-
-                def mk(f, name):
-                    def w(*a, **k):
-                        called.append(name)
-                        return f(*a, **k)
-                    return w
-                setattr(mod, name, mk(f, name))
-        try:
-            code_dz, code_sc = mod._calculate_int_dz(
-                rr, 'outer' if getattr(rr, '_probe_adiabatic', False) else None)
-        finally:
-            for name, f in saved.items():
-                setattr(mod, name, f)
-        rr._update_coolant_int_params(ct, use_mat_tracker=False)
+    # the limits the code derives for this region at this temperature,
+    # captured from inside the public calculate_min_dz
+    code_dz, code_sc, called = rodded_limits(dassh, rr, T)['int']
     sigs = []
     for name in sorted(set(called)):
         mm = re.fullmatch(r'_cons(\d)_(\d+)', name)
@@ -212,11 +238,17 @@ def probe_bypass(dassh, rr, dz, T, label, tol=4):
         ct = rr.coolant.temperature
         rr._update_coolant_byp_params([T] * nb)
         for b in range(nb):
+            state = {'out': False}
+
             def apply(Tv, Tw, b=b):
                 rr.temp['coolant_byp'][:] = T
                 rr.temp['coolant_byp'][b] = np.array(Tv, dtype=float)
-                rr.temp['duct_surf'][:] = Tw
-                rr.temp['duct_mw'][:] = Tw
+                rr.temp['duct_surf'][:] = T
+                rr.temp['duct_mw'][:] = T
+                # inner wall of the bypass = duct b, outer wall = duct b+1
+                which = b + 1 if state['out'] else b
+                rr.temp['duct_surf'][which] = Tw
+                rr.temp['duct_mw'][which] = Tw
                 # property temperature must not follow the probe field
                 orig = rr._update_coolant
 
@@ -229,15 +261,22 @@ def probe_bypass(dassh, rr, dz, T, label, tol=4):
                     del rr._update_coolant
                 return rr.temp['coolant_byp'][b] + d[b]
             with frozen_duct(rr, T):
-                W, wall, src = probe_matrix(nd, nd, apply, base=T)
+                W, wall_in, src = probe_matrix(nd, nd, apply, base=T)
+                state['out'] = True
+                _, wall_out, _ = probe_matrix(nd, nd, apply, base=T)
+            if getattr(rr, '_probe_adiabatic', False) and b + 1 == nb:
+                # adiabatic outer duct: its inner surface follows the old
+                # bypass coolant temperature (plus a source term)
+                W = W + np.diag(wall_out)
+                wall = wall_in
+            else:
+                wall = wall_in + wall_out
             m = (rr.byp_flow_rate[b] * rr.area['coolant_byp'][b]
                  / rr.total_area['coolant_byp'][b])
             keys = list(range(1, nd + 1))
             ev = rows_cols_events(W, wall, m, keys, tol=tol)
             tl = true_limit(W, dz)
-            with saved_state(rr, ['coolant_byp_params']):
-                rr._update_coolant_byp_params([T] * nb)
-                code_dz, code_sc = dassh.region_rodded._calculate_byp_dz(rr)
+            code_dz, code_sc, _ = rodded_limits(dassh, rr, T)['byp']
             ev.append({'e': 'Limit', 'codeLimit': qlen(code_dz),
                        'trueLimit': qlen(tl * (1 + 1e-9)), 'tol': 1,
                        'sc': str(code_sc)})
